@@ -84,7 +84,7 @@ class SimInterrupt(KeyboardInterrupt):
 # ----------------------------------------------------------------------------------------------
 def _gen_sig(sw):
     npos = sw.choice([0, 1, 1, 2, 2, 3, 4])
-    return {'npos': npos, 'ndef': sw.randint(0, npos), 'varargs': sw.random() < 0.3, 'varkw': sw.random() < 0.3}
+    return {'npos': npos, 'ndef': sw.randint(0, npos), 'varargs': sw.random() < 0.3, 'varkw': sw.random() < 0.3, 'sentinel': sw.random() < 0.2}
 
 
 def generate(st):
@@ -289,7 +289,10 @@ def _sig_src(s):
     parts = []
     for i in range(npos):
         nm = _names(s)[i]
-        parts.append(nm if i < npos - ndef else '%s=%d' % (nm, 100 + i))
+        if i >= npos - ndef and i == npos - 1 and s.get('sentinel'):
+            parts.append('%s=MISSING' % nm)          # the usual "no value given" marker, recognised by identity
+        else:
+            parts.append(nm if i < npos - ndef else '%s=%d' % (nm, 100 + i))
     if s['varargs']:
         parts.append('*args')
     if s['varkw']:
@@ -298,6 +301,14 @@ def _sig_src(s):
 
 
 HOOK = {'fn': None}
+
+
+class _Missing:
+    def __repr__(self):
+        return '<MISSING>'
+
+
+MISSING = _Missing()
 
 
 def _make_funcs(fid, s, ledger):
@@ -328,14 +339,14 @@ def _make_funcs(fid, s, ledger):
             raise SimInterrupt('interrupted')
         ledger.append({'fid': fid, 'raised': raised, 'n': state['calls']})
         if raised and s.get('exc_type') and not s.get('bare'):
-            raise SimTypeError('f%d armed' % fid)
+            raise SimTypeError('f%d armed (50%% of the way, key %%s)' % fid)
         if raised:
             if s.get('bare'):
                 raise SimFError()
-            raise SimFError('f%d armed' % fid)
+            raise SimFError('f%d armed (50%% of the way, key %%s)' % fid)
         return _ret(s, fid, tuple(named), tuple(varargs), tuple(kwitems))
     kworder = []
-    ns = {'body': body, 'kworder': kworder}
+    ns = {'body': body, 'kworder': kworder, 'MISSING': MISSING}
     exec(src, ns)
     ns['f'].kworder = kworder
     return ns['f'], ns['twin']
